@@ -322,6 +322,9 @@ def put_model(mjm: mujoco.MjModel, batch_sizes: dict[str, int] | None = None) ->
   if mjm.opt.noslip_iterations > 0:
     raise NotImplementedError(f"noslip solver not implemented.")
 
+  if ((mjm.sensor_type == mujoco.mjtSensor.mjSENS_RANGEFINDER) & (mjm.sensor_objtype == mujoco.mjtObj.mjOBJ_CAMERA)).any():
+    raise NotImplementedError("Camera rangefinder sensors are not supported.")
+
   if (mjm.body_plugin != -1).any():
     raise NotImplementedError("Body plugins not supported.")
 
